@@ -15,6 +15,7 @@ regenerated program.
 import TsdateVerif.Proofs.Cli
 import TsdateVerif.Spec.Cli
 import TsdateVerif.Gen.Cli
+import TsdateVerif.Gen.ProvParams
 
 namespace Tsdate.C34
 open Tsdate.Cli Tsdate.Gen.Cli
@@ -134,6 +135,75 @@ theorem cli_options_wellformed :
     (∀ o ∈ dateOpts, o.dest ∈ progDests dateProg ∨ o.dest ∈ mainReads) ∧
     (∀ o ∈ preprocessOpts, o.dest ∈ progDests preprocessProg ∨ o.dest ∈ mainReads) := by
   refine ⟨?_, ?_, ?_, ?_, ?_, ?_⟩ <;> decide +kernel
+
+/-- `apiAccepts m kw`: `kw` is a named parameter of `tsdate.date`, of `EstimationMethod.__init__`
+(reached through `**kwargs`) or of the method function `m` — signatures regenerated from core.py by
+translate/provparams.py. -/
+def apiAccepts (m kw : String) : Bool :=
+  Gen.ProvParams.sigDate.contains kw || Gen.ProvParams.sigInit.contains kw ||
+  Gen.ProvParams.methods.any (fun mi => mi.name == m && mi.fnParams.contains kw)
+
+/-- **Every keyword the CLI passes is a parameter of the API function it reaches**, for every
+namespace: under variational_gamma all keywords of the call are accepted by
+`date`/`variational_gamma`; otherwise by `date`/`inside_outside` *and* `date`/`maximization` (the two
+other choices of `--method`); `tsdate preprocess` passes only parameters of `preprocess_ts`.  So no
+successful parse can end in a `TypeError: unexpected keyword argument`. -/
+theorem cli_keywords_are_api_parameters (a : Args) :
+    (match exec a dateProg with
+      | .error _ => True
+      | .call _ _ kws _ =>
+        (a "method" = Val.str "variational_gamma" →
+          ∀ kv ∈ kws, apiAccepts "variational_gamma" kv.1 = true) ∧
+        (a "method" ≠ Val.str "variational_gamma" →
+          ∀ kv ∈ kws, apiAccepts "inside_outside" kv.1 = true ∧ apiAccepts "maximization" kv.1 = true)) ∧
+    (match exec a preprocessProg with
+      | .error _ => True
+      | .call _ _ kws _ => ∀ kv ∈ kws, kv.1 ∈ Gen.ProvParams.preprocessParams) := by
+  have hvg : (kwsWhen (Cond.eqStr "method" "variational_gamma") true dateProg).all
+      (fun kw => apiAccepts "variational_gamma" kw) = true := by decide +kernel
+  have hdisc : (kwsWhen (Cond.eqStr "method" "variational_gamma") false dateProg).all
+      (fun kw => apiAccepts "inside_outside" kw && apiAccepts "maximization" kw) = true := by decide +kernel
+  have hpre : (kwsWhen (Cond.eqStr "method" "variational_gamma") true preprocessProg).all
+      (fun kw => Gen.ProvParams.preprocessParams.contains kw) = true := by decide +kernel
+  constructor
+  · have h1 := fun (h : (Cond.eqStr "method" "variational_gamma").eval a = true) =>
+      kwsWhen_sound a _ true h dateProg
+    have h2 := fun (h : (Cond.eqStr "method" "variational_gamma").eval a = false) =>
+      kwsWhen_sound a _ false h dateProg
+    revert h1 h2
+    cases exec a dateProg with
+    | error m => simp
+    | call fn ts kws out =>
+      intro h1 h2
+      constructor
+      · intro hm kv hkv
+        have := h1 (by simp [Cond.eval, hm]) kv hkv
+        exact List.all_eq_true.mp hvg _ this
+      · intro hm kv hkv
+        have := h2 (by simpa [Cond.eval] using hm) kv hkv
+        have := List.all_eq_true.mp hdisc _ this
+        simpa using this
+  · cases hc : (Cond.eqStr "method" "variational_gamma").eval a with
+    | true =>
+      have h := kwsWhen_sound a _ true hc preprocessProg
+      revert h
+      cases exec a preprocessProg with
+      | error m => simp
+      | call fn ts kws out =>
+        intro h kv hkv
+        have := List.all_eq_true.mp hpre _ (h kv hkv)
+        simpa using this
+    | false =>
+      have hpre' : (kwsWhen (Cond.eqStr "method" "variational_gamma") false preprocessProg).all
+          (fun kw => Gen.ProvParams.preprocessParams.contains kw) = true := by decide +kernel
+      have h := kwsWhen_sound a _ false hc preprocessProg
+      revert h
+      cases exec a preprocessProg with
+      | error m => simp
+      | call fn ts kws out =>
+        intro h kv hkv
+        have := List.all_eq_true.mp hpre' _ (h kv hkv)
+        simpa using this
 
 /-! ### Non-vacuity -/
 
